@@ -53,6 +53,19 @@ register("C18",
     "Trusted: engine/microai; the documented meaning of the flips (constraints.h) encoded as matrices in engine/props/c18.py.",
     "abstract interpretation over finite enum domains and affine gap symbols; CFG must-precede rule; who-writes / reader-provenance rules",
     "DESIGN.md §5 C18")
+register("C06",
+    "Decides the bookkeeping clauses without which incremental routing cannot match a fresh router, for every path / action type: the "
+    "route length used by the selective-reroute test is recomputed whenever a route is stored; the per-edge estimate carries no state "
+    "from one obstacle edge to the next; the crossing point through which the estimate is taken is the minimiser (symbolic, same-side "
+    "and opposite-side end points); Router::processActions removes, re-tests (every moved and every deleted id), marks, re-adds, blocks "
+    "and recomputes visibility for every queued action under conditions no stronger than the reviewed ones; processTransaction gives up "
+    "only when nothing is queued; every connector with a raised flag reaches generatePath; blocker ids are recorded and re-tested. Does "
+    "not decide equality of route costs with a fresh router for all edit histories, nor validity of every route.",
+    "Trusted: clang AST/CFG; propositional path conditions over normal-form atoms (early continues included); the interpreter for the "
+    "crossing-point table (8x7 integer end-point pairs, one axis-parallel edge).",
+    "CFG must-pass-through / loop-carried-dependence dataflow, guarded-by entailment over path conditions, who-writes, symbolic "
+    "interpretation of the crossing-point computation",
+    "DESIGN.md §5 C06")
 register("C05",
     "Decides admissibility of the orthogonal search heuristic for every abstract input: the decision table of bends() (128 rows, "
     "extracted symbolically) never exceeds the free-plane minimum bend count and never reaches its assertion; the direction tables are "
@@ -140,12 +153,11 @@ register("C14",
     "abstract interpretation of doHOLA over an additive padding domain + who-writes / constructor-argument rules",
     "DESIGN.md §5 C14")
 for _p, _r in {
- "C06": "equality of route costs between an incrementally edited router and a fresh one quantifies over run-time visibility-graph contents after arbitrary edit histories; no rule over code shape is a necessary condition of it",
  "C12": "tree-ness and terminal preservation of hyperedges are invariants of dynamically rewritten run-time graphs; not visible in code shape",
  "C13": "topology preservation depends on run-time geometry of paths and rectangles; the library's own checks are run-time asserts",
  "C19": "partition / planarity of decompositions are invariants of run-time graph data",
 }.items():
     na(_p, _r)
-for _p in ["C01","C02","C03","C04","C05","C07","C08","C09","C10","C11","C14","C16","C17","C18","C20"]:
+for _p in ["C01","C02","C03","C04","C05","C06","C07","C08","C09","C10","C11","C14","C16","C17","C18","C20"]:
     if _p not in CHECKS:
         na(_p, "static check designed (DESIGN.md §5) but not yet registered in this commit")
